@@ -2,6 +2,7 @@
   C09 — writing never alters its input and is deterministic.
 -/
 import PcVerif.Model.World
+import PcVerif.Generated.ReadWorld
 namespace PcVerif.Props.C09
 open PcVerif PcVerif.World PcVerif.TextW
 
@@ -44,5 +45,8 @@ theorem output_history_independent (w : SpanWriter) (st : Bool) (docs : List (Li
   | cons d ds ih =>
     simp only [history, List.map_cons]
     rw [ih, write_resets_state w st d]
+
+/-- **C09 (no memory between writes).** no function of the library remembers what it returned (the translator's scan for caching decorators and weak-reference flyweight tables over every module is empty): what a writer computes for one document — rules of a language, converted sizes, region ids — is computed again for the next, which is what `output_history_independent` assumes of the functions the writers call -/
+theorem no_process_wide_memo : Generated.memoisedSites = [] := by decide
 
 end PcVerif.Props.C09
